@@ -20,6 +20,12 @@ func init() { checks["C06"] = c06 }
 
 func coresOfSpec(s *spec.Spec) func(string) int {
 	m := map[string]int{}
+	for _, a := range s.Also {
+		// commands of a further workflow in the same program do not count against this workflow's limit
+		for _, p := range a.Procs {
+			m[p.Name] = 0
+		}
+	}
 	for _, p := range s.Procs {
 		c := p.Cores
 		if c == 0 {
@@ -58,6 +64,15 @@ func slotWorkloads(c *chk.Ctx, label string, n int) []*slotJob {
 			o.TasksPer = 8
 		}
 		s, bh := gen.Contention(rng, fmt.Sprintf("slots%d", i), o)
+		if i%3 == 1 {
+			// the public Spawn field of one process is set to false
+			for _, p := range s.Procs {
+				if p.Kind == spec.KCmd || p.Kind == spec.KGoFunc {
+					p.NoSpawn = true
+					break
+				}
+			}
+		}
 		cfg := Cfg{Buf: []int{1, 3, 128}[rng.Intn(3)], Procs: []int{1, 2, 4, 8}[rng.Intn(4)], Sched: fmt.Sprintf("%d,400,1500", rng.Intn(1<<30))}
 		jobs = append(jobs, &slotJob{s, bh, cfg, "mixed"})
 	}
@@ -67,7 +82,7 @@ func slotWorkloads(c *chk.Ctx, label string, n int) []*slotJob {
 func c06(args []string) {
 	c := chk.New("C06", "exploration", args)
 	c.Build(false)
-	c.Rule("contention workloads: maxConcurrentTasks in {1,2,3,4,6,8} (and NumCPU+4.. with a process that needs all slots and one that needs NumCPU+1), 2-4 processes with CoresPerTask drawn from 1..max, half of the command processes wrapped through Prepend, about 3*max simultaneously ready tasks of 15-60 ms (commands and Go functions), skipped tasks mixed in, an optional streaming producer/consumer pair, one scenario with commands whose work is done by a helper outliving them, one long-wait scenario (a task waiting > 10 s for a slot), SCIPIPE_BUFSIZE smaller than CoresPerTask, a multi-core task consuming a joined sub-stream while other tasks keep the slots busy; also workloads driven through the exported task API with a core count per task; oracles = (1) sweep line over the commands' own CLOCK_MONOTONIC start/end stamps weighted by CoresPerTask, (2) shadow slot counter updated under the hook mutex at acquisition/release, (3) porcupine linearizability of the Acquire(k)/Release(k) history against a sequential counting semaphore. distinct_nontrivial = runs whose observed weighted overlap reached max (real contention), distinct by (max, cores mix, interleaving signature)")
+	c.Rule("contention workloads: maxConcurrentTasks in {1,2,3,4,6,8} (and NumCPU+4.. with a process that needs all slots and one that needs NumCPU+1), 2-4 processes with CoresPerTask drawn from 1..max, half of the command processes wrapped through Prepend, about 3*max simultaneously ready tasks of 15-60 ms (commands and Go functions), skipped tasks mixed in, an optional streaming producer/consumer pair, one scenario with commands whose work is done by a helper outliving them, one long-wait scenario (a task waiting > 10 s for a slot), a process with Spawn = false in every third workload, two workflow objects of one name with different limits in one program, SCIPIPE_BUFSIZE smaller than CoresPerTask, a multi-core task consuming a joined sub-stream while other tasks keep the slots busy; also workloads driven through the exported task API with a core count per task; oracles = (1) sweep line over the commands' own CLOCK_MONOTONIC start/end stamps weighted by CoresPerTask, (2) shadow slot counter updated under the hook mutex at acquisition/release, (3) porcupine linearizability of the Acquire(k)/Release(k) history against a sequential counting semaphore. distinct_nontrivial = runs whose observed weighted overlap reached max (real contention), distinct by (max, cores mix, interleaving signature)")
 	c.Assume("a command's [start,end] interval lies inside its task's slot-holding interval, so the weighted overlap is a lower bound of slot usage (sound)", "CoresPerTask <= maxConcurrentTasks")
 	jobs := slotWorkloads(c, "c06", c.Pick(48, 500))
 	// long-wait scenario: three tasks of ~10.6 s on 2 slots, so that one task waits > 10 s for its slot
@@ -102,6 +117,28 @@ func c06(args []string) {
 		s, bh := gen.Contention(rng, fmt.Sprintf("smallbuf%d", r), gen.ContentionOpts{Max: 2 * cores, Procs: 2, TasksPer: 4, SleepLo: 60, SleepHi: 120, GoFunc: r%2 == 1,
 			CoresFn: func(i int) int { return []int{cores, 1}[i%2] }})
 		jobs = append(jobs, &slotJob{s, bh, Cfg{Buf: buf, Procs: 4}, "bufsize-below-cores-per-task"})
+	}
+	// two workflow objects with the same name in one program, the one created first with the larger limit: each has
+	// its own limit (the sweep counts the commands of the judged workflow only)
+	for r := 0; r < c.Pick(2, 6); r++ {
+		in, o1 := []spec.PortDecl{{Name: "in"}}, []spec.PortDecl{{Name: "out"}}
+		max := []int{2, 1, 3}[r%3]
+		x := &spec.Spec{Name: "batch", MaxTasks: max, Sources: map[string]string{}}
+		xs := &spec.Proc{Name: "xsrc", Kind: spec.KFileSource}
+		for k := 0; k < 4*max+2; k++ {
+			f := fmt.Sprintf("x%02d.txt", k)
+			xs.Files = append(xs.Files, f)
+			x.Sources[f] = f + "\n"
+		}
+		x.Procs = append(x.Procs, xs, &spec.Proc{Name: "xa", Kind: spec.KCmd, Cmd: spec.BuildCmd("xa", in, o1, nil, nil, map[string]string{"sleep": "80"})})
+		x.Conns = append(x.Conns, &spec.Conn{From: "xsrc.out", To: "xa.in"})
+		y := &spec.Spec{Name: "batch", MaxTasks: max + 3, Sources: map[string]string{}}
+		x.Sources["y0.txt"], x.Sources["y1.txt"] = "y0\n", "y1\n"
+		y.Procs = append(y.Procs, &spec.Proc{Name: "ysrc", Kind: spec.KFileSource, Files: []string{"y0.txt", "y1.txt"}},
+			&spec.Proc{Name: "ya", Kind: spec.KCmd, Cmd: spec.BuildCmd("ya", in, o1, nil, nil, map[string]string{"sleep": "10"})})
+		y.Conns = append(y.Conns, &spec.Conn{From: "ysrc.out", To: "ya.in"})
+		x.Also = []*spec.Spec{y}
+		jobs = append(jobs, &slotJob{x, nil, Cfg{Buf: 128, Procs: 4}, "two-workflows-of-one-name"})
 	}
 	// a task whose in-port is a joined sub-stream, with other tasks keeping the slots busy
 	for r := 0; r < c.Pick(2, 6); r++ {
@@ -161,6 +198,15 @@ func c06(args []string) {
 		}
 		sh, at, acq := mon.ShadowMax(res.Events)
 		c.Count("slot_acquisitions", acq)
+		if len(j.s.Also) > 0 {
+			// the hook-based shadow counter and the semaphore history are per program, not per workflow: with two
+			// workflows in one program only the sweep over the judged workflow's commands applies
+			c.Max(fmt.Sprintf("max_overlap_seen_at_max_%d", max), ov)
+			if ov == max {
+				c.Nontrivial(fmt.Sprintf("twowf|%d|%s", max, mon.InterleavingSig(res.Events)))
+			}
+			return
+		}
 		if sh > max {
 			c.Violation("shadow-counter-exceeds-max", fmt.Sprintf("shadow slot counter reached %d > max %d at %+v", sh, max, at), map[string]interface{}{"spec": j.s, "cfg": j.cfg, "event": at})
 			return
